@@ -6,6 +6,8 @@
  * C14: role assignments read back exactly as last set also when a lookup runs concurrently with an assignment
 Each oracle runs the real code only; the expected outcome follows directly from the property text."""
 import asyncio
+import json
+import logging
 
 from . import env
 from .common import Suite, rng_for
@@ -227,6 +229,631 @@ def suite_roles_concurrent(tier, seed):
             s.case(case, nontrivial=len(seq) > 1)
             if bad:
                 s.violate("roles-readback-stale", case, "role assignment does not read back as last set when a lookup ran concurrently", observed=bad)
+    return s
+
+
+def suite_roles_burst(tier, seed):
+    s = Suite("oracle:roles-readback-burst")
+    s.rule = ("bursts of 2-6 role assignments for one or two pubkeys issued back to back (one await after the other, nothing waits for the LMDB "
+              "writer in between, one second apart on the injected clock, repeated values A,B,A included); once everything is written the roles "
+              "of every pubkey must read back exactly as LAST set; SQL and LMDB; non-trivial = some pubkey is assigned a value, another one, and "
+              "the first again")
+    rng = rng_for(seed, "c14burst")
+
+    async def one(backend, seq):
+        import types
+        import aionostr.event as ae
+        env.load_config(authentication={"enabled": True, "actions": {"save": "aw", "query": "arw"}})
+        env.patch_clock()
+        sc = env.Scratch()
+        st = await (env.sql_storage(sc) if backend == "sql" else env.kv_storage(sc))
+        saved = ae.time
+        ae.time = types.SimpleNamespace(time=env._now)
+        bad = None
+        try:
+            last = {}
+            for i, (pk, roles) in enumerate(seq):
+                env.set_clock(env.NOW + i)
+                await st.set_auth_roles(pk, roles)
+                last[pk] = roles
+            await env.quiesce(st)
+            for pk, roles in last.items():
+                got = "".join(sorted(await st.get_auth_roles(pk)))
+                if got != "".join(sorted(set(roles.lower()))):
+                    bad = {"pubkey": pk[:8], "last_set": roles, "read_back": got}
+                    break
+        finally:
+            ae.time = saved
+            env.set_clock(env.NOW)
+            await env.close(st)
+            sc.close()
+        return bad
+    for backend in ("sql", "kv"):
+        for _ in range(6 if tier == "quick" else 60):
+            pks = [env.PUBS[1]] if rng.random() < 0.6 else [env.PUBS[1], env.PUBS[2]]
+            n = rng.randint(2, 6)
+            seq = []
+            for i in range(n):
+                pk = rng.choice(pks)
+                prev = [r for p, r in seq if p == pk]
+                if len(prev) >= 2 and rng.random() < 0.6:
+                    roles = prev[-2]                       # A, B, A
+                else:
+                    roles = rng.choice(["w", "r", "rw", "s", "a", ""])
+                seq.append((pk, roles))
+            bad = env.run(one(backend, seq))
+            case = {"backend": backend, "assignments": [[p[:8], r] for p, r in seq]}
+            aba = any(seq[i][0] == seq[j][0] == seq[k][0] and seq[i][1] == seq[k][1] != seq[j][1]
+                      for i in range(len(seq)) for j in range(i + 1, len(seq)) for k in range(j + 1, len(seq)))
+            s.case(case, nontrivial=aba)
+            if bad:
+                s.violate("roles-readback-stale", dict(case, full=seq), "a burst of role assignments does not read back as last set", observed=bad)
+    return s
+
+
+# ------------------------------------------------------------------------------------ C14: output validator that reads its context
+OV_CALLS = []
+
+
+def members_only(event, context):
+    """output validator: events tagged t=members go to connections holding role 'a' only; records the context it was given"""
+    tok = context.get("auth_token") or {}
+    OV_CALLS.append((str(context.get("client_id")), "".join(sorted(tok.get("roles", ()))), event.id))
+    if any(len(t) > 1 and t[0] == "t" and t[1] == "members" for t in event.tags):
+        return "a" in tok.get("roles", ())
+    return True
+
+
+def suite_output_validator_context(tier, seed, backends=("sql", "kv")):
+    s = Suite("oracle:output-validator-own-context")
+    s.rule = ("2-4 connections with different tokens (none, roles r, roles a, roles ar) in random order hold live subscriptions under an output "
+              "validator whose verdict depends on context['auth_token'] (members-only events need role 'a'); 3-6 events (members / public) are "
+              "accepted; every connection must receive, live and again from storage on a later REQ, exactly the events the validator admits for "
+              "ITS OWN token, and the validator must have been called with that connection's client_id and token; SQL and LMDB; non-trivial = a "
+              "members-only event is delivered to one connection and withheld from another")
+    rng = rng_for(seed, "c14ovctx")
+
+    async def one(backend, toks, evs):
+        env.load_config(authentication={"enabled": True, "actions": {"save": "arw", "query": "arw"}, "default_roles": ["r"]},
+                        output_validator="harness.extra.members_only")
+        env.patch_clock()
+        sc = env.Scratch()
+        st = await (env.sql_storage(sc) if backend == "sql" else env.kv_storage(sc))
+        del OV_CALLS[:]
+        out = {"live": [], "stored": [], "ctx": []}
+        try:
+            conns = []
+            for i, roles in enumerate(toks):
+                q = asyncio.Queue()
+                c = env.FakeClient("conn%d" % i)
+                tok = {} if roles is None else {"pubkey": env.PUBS[2], "roles": set(roles), "now": env.NOW}
+                await st.subscribe(c, "live", [{"kinds": [1]}], q, auth_token=tok)
+                conns.append((c, q, tok))
+            await asyncio.sleep(0.02)
+            for c, q, tok in conns:            # drain the EOSE of the (empty) stored answer
+                while not q.empty():
+                    q.get_nowait()
+            for e in evs:
+                await st.add_event(e, auth_token={"pubkey": env.PUBS[0], "roles": set("arw"), "now": env.NOW})
+                await env.quiesce(st)
+                for _ in range(3):
+                    if st._notify_sub_tasks:
+                        await asyncio.wait(st._notify_sub_tasks)
+                    await asyncio.sleep(0)
+            for i, (c, q, tok) in enumerate(conns):
+                got = []
+                while not q.empty():
+                    sid, ev = q.get_nowait()
+                    if ev is not None:
+                        got.append(ev.id)
+                out["live"].append(sorted(got))
+            for i, (c, q, tok) in enumerate(conns):
+                evs2, oc = await env.req(st, [{"kinds": [1]}], sub_id="again", auth_token=tok, client=c)
+                out["stored"].append(sorted(e.id for e in evs2))
+            out["ctx"] = list(OV_CALLS)
+        finally:
+            await env.close(st)
+            sc.close()
+        return out
+    for backend in backends:
+        for _ in range(5 if tier == "quick" else 40):
+            toks = [rng.choice([None, "r", "a", "ar"]) for _ in range(rng.randint(2, 4))]
+            if len(set(toks)) == 1:
+                toks[0] = "a" if toks[0] != "a" else None
+            evs = [env.mk_event(0, 1, env.NOW - 5 + i, [["t", rng.choice(["members", "public", "members"])]], "ov%d" % i) for i in range(rng.randint(3, 6))]
+            out = env.run(one(backend, toks, evs))
+            case = {"backend": backend, "tokens": toks, "events": [[e["id"][:8], e["tags"][0][1]] for e in evs]}
+            want = []
+            for roles in toks:
+                want.append(sorted(e["id"] for e in evs if e["tags"][0][1] != "members" or (roles and "a" in roles)))
+            members = [e["id"] for e in evs if e["tags"][0][1] == "members"]
+            s.case(case, nontrivial=bool(members) and any(r and "a" in r for r in toks) and any(not r or "a" not in r for r in toks))
+            for path in ("live", "stored"):
+                for i, roles in enumerate(toks):
+                    if out[path][i] != want[i]:
+                        leaked = sorted(set(out[path][i]) - set(want[i]))
+                        s.violate("output-validator-foreign-context", dict(case, full_events=evs, path=path, connection=i),
+                                  "%s delivery to connection %d (roles %r) is not what the output validator admits for that connection's own token%s"
+                                  % (path, i, roles, " (members-only event leaked)" if leaked else " (admissible event withheld)"),
+                                  expected=[x[:8] for x in want[i]], observed=[x[:8] for x in out[path][i]])
+                        break
+            names = {"conn%d" % i: "".join(sorted(r or "")) for i, r in enumerate(toks)}
+            for cid, roles, eid in out["ctx"]:
+                if cid in names and names[cid] != roles:
+                    s.violate("output-validator-foreign-context", dict(case, full_events=evs, path="context"),
+                              "the output validator was called for %s with the token of another connection (roles %r instead of %r)" % (cid, roles, names[cid]))
+                    break
+    return s
+
+
+# ------------------------------------------------------------------------------------ C17: the collector as the relay runs it
+def suite_gc_lifecycle(tier, seed, backends=("sql", "kv")):
+    s = Suite("oracle:gc-periodic-passes")
+    s.rule = ("the garbage collector started the way the relay starts it (storage.start_garbage_collector -> Periodic loop, ONE collector object "
+              "for the whole run; only Periodic.wait_function is replaced by a harness tick) over 3-7 rounds of [0-3 accepted kind-1 events with "
+              "expiration in {T-50..T+200, malformed, none}; clock step in {1,30,100,300}; one pass], including quiet rounds with no submission; "
+              "after every pass at time T the store must hold exactly the accepted events whose expiration is not a well-formed timestamp < T; "
+              "SQL and LMDB; non-trivial = an event expires during a round in which nothing is submitted and a later pass has to remove it")
+    rng = rng_for(seed, "c17life")
+
+    async def one(backend, rounds):
+        from nostr_relay import util
+        from nostr_relay.config import Config
+        env.load_config()
+        env.patch_clock()
+        Config.garbage_collector = {"collect_interval": 300}
+        sc = env.Scratch()
+        st = await (env.sql_storage(sc) if backend == "sql" else env.kv_storage(sc))
+        tick, idle = asyncio.Event(), asyncio.Event()
+        orig_wait = util.Periodic.wait_function
+
+        async def wait_function(self):
+            idle.set()
+            await tick.wait()
+            tick.clear()
+        util.Periodic.wait_function = wait_function
+        trace = []
+        try:
+            st.start_garbage_collector()
+            await asyncio.wait_for(idle.wait(), 10)
+            T = env.NOW
+            accepted = []
+            for step, evs in rounds:
+                for e in evs:
+                    env.set_clock(T)
+                    ev = env.mk_event(e["who"], 1, T - 1, ([["expiration", e["exp"] if isinstance(e["exp"], str) else str(T + e["exp"])]] if e["exp"] is not None else []), e["c"])
+                    try:
+                        _, ok = await st.add_event(ev)
+                    except Exception:
+                        ok = False
+                    if ok:
+                        accepted.append(ev)
+                await env.quiesce(st)
+                T += step
+                env.set_clock(T)
+                idle.clear()
+                tick.set()
+                await asyncio.wait_for(idle.wait(), 20)
+                await env.quiesce(st)
+                trace.append({"T": T, "stored": await env.stored_ids(st), "accepted": [[x["id"], x["tags"]] for x in accepted]})
+        finally:
+            util.Periodic.wait_function = orig_wait
+            util.Periodic.cancel_running()
+            env.set_clock(env.NOW)
+            Config.garbage_collector = None
+            await env.close(st)
+            sc.close()
+        return trace
+
+    def expired(tags, T):
+        for tg in tags:
+            if tg[0] == "expiration" and len(tg) > 1 and tg[1].isascii() and tg[1].isdigit() and int(tg[1]) < T:
+                return True
+        return False
+    for backend in backends:
+        for _ in range(5 if tier == "quick" else 40):
+            rounds, k = [], 0
+            for r in range(rng.randint(3, 7)):
+                evs = []
+                for _ in range(rng.choice([0, 0, 1, 2, 3])):
+                    k += 1
+                    evs.append({"who": rng.randrange(3), "c": "gc%d" % k,
+                                "exp": rng.choice([-50, -1, 0, 1, 20, 50, 99, 150, 200, None, None, "abc", "", "1e9"])})
+                rounds.append((rng.choice([1, 30, 100, 300]), evs))
+            if rng.random() < 0.7:
+                # an event that survives the pass of its own round and expires during the next, quiet, round
+                j = rng.randrange(len(rounds) - 1)
+                k += 1
+                rounds[j][1].append({"who": 0, "c": "gc%d" % k, "exp": rounds[j][0] + rng.randrange(rounds[j + 1][0])})
+                rounds[j + 1] = (rounds[j + 1][0], [])
+            trace = env.run(one(backend, rounds))
+            case = {"backend": backend, "rounds": rounds}
+            quiet_expiry = False
+            gone = set()
+            bad = None
+            for i, tr in enumerate(trace):
+                want = sorted(x for x, tags in tr["accepted"] if not expired(tags, tr["T"]))
+                if i > 0 and not rounds[i][1]:
+                    prevT = trace[i - 1]["T"]
+                    quiet_expiry = quiet_expiry or any(expired(tags, tr["T"]) and not expired(tags, prevT) for _, tags in tr["accepted"])
+                if tr["stored"] != want and bad is None:
+                    left = sorted(set(tr["stored"]) - set(want))
+                    lost = sorted(set(want) - set(tr["stored"]))
+                    bad = ("gc-pass-left-expired" if left else "gc-pass-removed-live", i, left, lost)
+            s.case(case, nontrivial=quiet_expiry)
+            s.count("rounds_%d" % len(rounds))
+            s.count("quiet_expiry" if quiet_expiry else "no_quiet_expiry")
+            if bad:
+                cls, i, left, lost = bad
+                s.violate(cls, case, "after pass %d (T=%d) of the running collector: %d expired events still stored, %d unexpired events missing"
+                          % (i, trace[i]["T"], len(left), len(lost)), expected="stored = accepted minus well-formed expirations < T",
+                          observed={"still_stored": [x[:8] for x in left], "missing": [x[:8] for x in lost]})
+    return s
+
+
+# ------------------------------------------------------------------------------------ C13 / C19: REQ bursts on LMDB with the statistics path in place
+def suite_kv_req_burst(tier, seed):
+    s = Suite("oracle:kv-req-burst-every-req-answered")
+    s.rule = ("LMDB backend with the REAL kv.analyze / analysis thread (the other suites run without the statistics thread): one connection sends a "
+              "burst of 35-60 REQs (distinct ids, some with junk filters) through web.start_client faster than the analysis queue (30 entries, "
+              "0.5 s each) drains, then an ordinary REQ on the same and on a second connection; every REQ with a usable filter must get exactly "
+              "one EOSE, the others a NOTICE; non-trivial = the burst is longer than the analysis queue")
+    rng = rng_for(seed, "kvburst")
+
+    async def one(n, junk):
+        from nostr_relay import web
+        from nostr_relay.storage import kv
+        from nostr_relay.config import Config
+        from . import relay
+        env.load_config(subscription_limit=200)
+        env.patch_clock()
+        sc = env.Scratch()
+        st = await env.kv_storage(sc)
+        kv.analyze = kv._verif_real_analyze
+        Config.analysis_delay = 0.5
+        try:
+            for i in range(3):
+                await st.add_event(env.mk_event(0, 1, env.NOW - i, [], "b%d" % i))
+            await env.quiesce(st)
+            out = []
+            for cid, msgs in ((0, [["REQ", "r%d" % i, ({"kinds": [1], "limit": 2} if i not in junk else {"kinds": "x"})] for i in range(n)] + [["REQ", "probe", {"kinds": [1]}]]),
+                              (1, [["REQ", "other", {"kinds": [1]}]])):
+                sent, inbox = [], asyncio.Queue()
+
+                async def ws_send(text, sent=sent):
+                    sent.append(json.loads(text))
+
+                async def ws_recv(inbox=inbox):
+                    import falcon
+                    item = await inbox.get()
+                    if item is None:
+                        raise falcon.WebSocketDisconnected()
+                    return item
+
+                async def ws_close(code=1000):
+                    sent.append(["CLOSED", code])
+                task = asyncio.create_task(web.start_client(st, ws_send, ws_recv, ws_close, logging.getLogger("verif.burst"),
+                                                            rate_limiter=relay.NullLimiter(), remote_addr="10.0.0.%d" % cid))
+                for m in msgs:
+                    inbox.put_nowait(json.dumps(m))
+                want = {m[1] for m in msgs}
+                for _ in range(1500):
+                    await asyncio.sleep(0.004)
+                    done = {f[1] for f in sent if f[0] == "EOSE"}
+                    notices = sum(1 for f in sent if f[0] == "NOTICE")
+                    if len(done) + notices >= len(want) or task.done():
+                        break
+                inbox.put_nowait(None)
+                try:
+                    await asyncio.wait_for(task, 10)
+                except Exception as e:      # noqa
+                    sent.append(["ESCAPED", repr(e)])
+                out.append((msgs, sent))
+            return out
+        finally:
+            env.stub_analyze(kv)
+            Config.analysis_delay = 0.0
+            await env.close(st)
+            sc.close()
+    for _ in range(1 if tier == "quick" else 6):
+        n = rng.randint(35, 60)
+        junk = set(rng.sample(range(n), 3))
+        res = env.run(one(n, junk))
+        case = {"burst": n, "junk_filters_at": sorted(junk)}
+        s.case(case, nontrivial=n > 31)
+        for msgs, sent in res:
+            eose = [f[1] for f in sent if f[0] == "EOSE"]
+            for m in msgs:
+                usable = isinstance(m[2].get("kinds"), list)
+                k = eose.count(m[1])
+                if usable and k != 1:
+                    s.violate("req-met-with-silence" if k == 0 else "eose-repeated", dict(case, sub_id=m[1]),
+                              "REQ %s of the burst got %d EOSE frames" % (m[1], k), observed=[f for f in sent if f[0] != "EVENT"][-6:])
+                    break
+            if any(f[0] in ("ESCAPED", "CLOSED") for f in sent):
+                s.violate("handler-exception-escaped", case, "the connection was closed / an exception left the handler during a REQ burst",
+                          observed=[f for f in sent if f[0] in ("ESCAPED", "CLOSED")])
+    return s
+
+
+# ------------------------------------------------------------------------------------ C13 / C19: a REQ whose query fails inside the engine
+def suite_failing_query_answered(tier, seed):
+    s = Suite("oracle:failing-query-still-answered")
+    s.rule = ("SQL backend through web.start_client: REQs whose statement fails when it is executed - a NUL inside a tag value, 1100 over-long ids "
+              "(expression depth), or an OperationalError injected at the SELECT of the k-th REQ by a SQLAlchemy listener - interleaved with "
+              "ordinary REQs; every REQ must be answered (exactly one EOSE, or a NOTICE), ordinary REQs keep returning the stored events, the "
+              "connection stays usable; non-trivial = an engine error really occurred while the REQ was served")
+    rng = rng_for(seed, "failq")
+
+    async def one(script):
+        import sqlalchemy as sa
+        import falcon
+        from nostr_relay import web
+        from . import relay
+        env.load_config(subscription_limit=50)
+        env.patch_clock()
+        env.patch_web_sleep()
+        sc = env.Scratch()
+        st = await env.sql_storage(sc)
+        state = {"inject": False, "errors": 0}
+
+        def before(conn, cur, stmt, params, ctx, many):
+            if state["inject"] and stmt.lstrip().upper().startswith("SELECT") and " events" in stmt:
+                state["inject"] = False
+                state["errors"] += 1
+                raise sa.exc.OperationalError(stmt, params, Exception("injected by the harness"))
+        sa.event.listen(st.db.sync_engine, "before_cursor_execute", before)
+
+        def on_error(ctx):
+            state["errors"] += 1
+        sa.event.listen(st.db.sync_engine, "handle_error", on_error)
+        try:
+            for i in range(3):
+                await st.add_event(env.mk_event(0, 1, env.NOW - i, [["t", "x"]], "f%d" % i))
+            sent, inbox = [], asyncio.Queue()
+
+            async def ws_send(text):
+                sent.append(json.loads(text))
+
+            async def ws_recv():
+                item = await inbox.get()
+                if item is None:
+                    raise falcon.WebSocketDisconnected()
+                return item
+
+            async def ws_close(code=1000):
+                sent.append(["CLOSED", code])
+            task = asyncio.create_task(web.start_client(st, ws_send, ws_recv, ws_close, logging.getLogger("verif.failq"),
+                                                        rate_limiter=relay.NullLimiter(), remote_addr="10.0.0.9"))
+            out = []
+            for sid, kind, flt in script:
+                n0 = len(sent)
+                if kind == "inject":
+                    state["inject"] = True
+                inbox.put_nowait(json.dumps(["REQ", sid, flt]))
+                for _ in range(2500):
+                    await asyncio.sleep(0.004)
+                    if any((f[0] == "EOSE" and f[1] == sid) or f[0] in ("NOTICE", "CLOSED") for f in sent[n0:]) or task.done():
+                        break
+                await asyncio.sleep(0.02)
+                new = sent[n0:]
+                out.append({"sid": sid, "kind": kind, "eose": sum(1 for f in new if f[0] == "EOSE" and f[1] == sid),
+                            "notice": sum(1 for f in new if f[0] == "NOTICE"), "events": sum(1 for f in new if f[0] == "EVENT" and f[1] == sid),
+                            "closed": any(f[0] == "CLOSED" for f in new) or task.done()})
+                state["inject"] = False
+            inbox.put_nowait(None)
+            try:
+                await asyncio.wait_for(task, 10)
+                escaped = None
+            except Exception as e:      # noqa
+                escaped = repr(e)
+            return out, state["errors"], escaped
+        finally:
+            await env.close(st)
+            sc.close()
+    hostile = [("nul-in-value", {"#t": ["a\u0000b"]}), ("nul-in-second-value", {"#t": ["x", "\u0000"]}),
+               ("many-long-ids", {"ids": ["%065x" % i for i in range(1100)]}), ("inject", {"kinds": [1]}), ("inject", {"#t": ["x"]})]
+    for _ in range(3 if tier == "quick" else 20):
+        script = []
+        for i in range(rng.randint(4, 8)):
+            if rng.random() < 0.5:
+                kind, flt = rng.choice(hostile)
+            else:
+                kind, flt = "plain", {"kinds": [1]}
+            script.append(("q%d" % i, kind, flt))
+        script.append(("last", "plain", {"#t": ["x"]}))
+        out, errors, escaped = env.run(one(script))
+        case = {"script": [[a, b] for a, b, _ in script]}
+        s.case(case, nontrivial=errors > 0)
+        s.count("engine_errors", errors)
+        for o in out:
+            s.count("kind_" + o["kind"])
+            if o["closed"]:
+                s.violate("handler-exception-escaped", dict(case, at=o), "the connection was closed while serving REQ %s (%s)" % (o["sid"], o["kind"]), observed=o)
+                break
+            if o["eose"] + o["notice"] == 0:
+                s.violate("req-met-with-silence", dict(case, at=o), "REQ %s (%s) got neither EOSE nor NOTICE" % (o["sid"], o["kind"]), observed=o)
+                break
+            if o["eose"] > 1:
+                s.violate("eose-repeated", dict(case, at=o), "REQ %s got %d EOSE frames" % (o["sid"], o["eose"]), observed=o)
+                break
+            if o["kind"] == "plain" and o["events"] != 3:
+                s.violate("plain-req-disturbed", dict(case, at=o), "an ordinary REQ after failing ones returned %d of 3 stored events" % o["events"], observed=o)
+                break
+        if escaped:
+            s.violate("handler-exception-escaped", case, "an exception left the connection handler: " + escaped)
+    return s
+
+
+# ------------------------------------------------------------------------------------ C20: workers as the relay assembles them
+def suite_two_workers(tier, seed):
+    s = Suite("oracle:workers-share-accepted-events")
+    s.rule = ("2-3 DBStorage workers on one SQLite file, assembled the way the relay does it (run_notifier: true in the configuration -> "
+              "Config.should_run_notifier -> storage.setup() starts a NotifyClient, web.start_mainprocess_tasks starts the NotifyServer; only the "
+              "port and the 2 s start-up sleep are replaced), one live subscriber per worker; a worker accepts an event before its notifier is "
+              "connected (that announcement fails), then 4-10 events are accepted by random workers; every subscriber of EVERY worker must be "
+              "pushed each event accepted after the workers were connected exactly once; non-trivial = events accepted by at least two different workers")
+    rng = rng_for(seed, "c20workers")
+
+    async def one(nworkers, script):
+        import socket
+        from nostr_relay import notifier, web
+        from nostr_relay.config import Config
+        from nostr_relay.storage import get_metadata
+        from nostr_relay.storage.db import DBStorage
+        env.load_config(run_notifier=True)
+        env.patch_clock()
+        sock = socket.socket()
+        sock.bind(("127.0.0.1", 0))
+        port = sock.getsockname()[1]
+        sock.close()
+        saved = (notifier.NotifyClient.__init__, notifier.NotifyServer.__init__, notifier.asyncio)
+        ci, si = saved[0], saved[1]
+
+        def client_init(self, storage, port_=None, address="127.0.0.1"):
+            ci(self, storage, port=port, address=address)
+
+        servers = []
+        ready = asyncio.Event()
+        gate = asyncio.Event()          # held while the last worker accepts its early event: its notifier is not connected yet
+        gate.set()
+
+        def server_init(self, port_=None):
+            si(self, port=port)
+            servers.append(self)
+
+        async def start_server(*a, **k):
+            srv = await asyncio.start_server(*a, **k)
+            ready.set()
+            return srv
+
+        class NotifierAsyncio:
+            def __getattr__(self, name):
+                if name == "sleep":
+                    return wait_for_server
+                if name == "start_server":
+                    return start_server
+                return getattr(asyncio, name)
+
+        async def wait_for_server(delay, result=None):
+            # stands for the 2 s a worker waits before it connects: long enough for the main process to be listening
+            try:
+                await asyncio.wait_for(ready.wait(), 5)
+                await asyncio.wait_for(gate.wait(), 5)
+            except asyncio.TimeoutError:
+                pass
+            return result
+        notifier.NotifyClient.__init__ = client_init
+        notifier.NotifyServer.__init__ = server_init
+        notifier.asyncio = NotifierAsyncio()
+        sc = env.Scratch()
+        url = "sqlite+aiosqlite:///" + sc.path(".sqlite3")
+        workers, queues = [], []
+        try:
+            for i in range(nworkers):
+                o = {"sqlalchemy.url": url, "validators": ["nostr_relay.validators.is_signed"]}
+                Config.storage = dict(o)
+                if i == nworkers - 1:
+                    gate.clear()
+                st = DBStorage(o)
+                await st.setup()
+                st._backend = "sql"
+                if i == 0:
+                    async with st.db.begin() as conn:
+                        await conn.run_sync(get_metadata().create_all)
+                    web.is_main_process.clear()
+                    await web.start_mainprocess_tasks(st)
+                q = asyncio.Queue()
+                await st.subscribe(env.FakeClient("w%d" % i), "s", [{"kinds": [1]}], q)
+                workers.append(st)
+                queues.append(q)
+            # the last worker accepts an event before its notifier is connected
+            early = env.mk_event(0, 1, env.NOW - 100, [], "early")
+            await workers[-1].add_event(early)
+            await asyncio.sleep(0.02)
+            early_failed = getattr(workers[-1].notifier, "writer", None) is None
+            gate.set()
+            for _ in range(600):
+                await asyncio.sleep(0.01)
+                if all(getattr(w.notifier, "writer", None) is not None for w in workers):
+                    break
+            await asyncio.sleep(0.05)
+            connected = [w.notifier is not None and w.notifier.writer is not None for w in workers]
+            for q in queues:
+                while not q.empty():
+                    q.get_nowait()
+            accepted, raised = [], []
+            for k, (w, c) in enumerate(script):
+                e = env.mk_event(k % 3, 1, env.NOW - 50 + k, [], c)
+                try:
+                    _, ok = await workers[w].add_event(e)
+                except Exception as ex:      # noqa
+                    raised.append("worker %d, event %d: %r" % (w, k, ex))
+                    ok = await workers[w].get_event(e["id"]) is not None
+                if ok:
+                    accepted.append(e["id"])
+                await asyncio.sleep(0.01)
+            got = [[] for _ in workers]
+            for _ in range(300):
+                for i, q in enumerate(queues):
+                    while not q.empty():
+                        sid, ev = q.get_nowait()
+                        if ev is not None:
+                            got[i].append(ev.id)
+                if all(len(g) >= len(accepted) for g in got):
+                    break
+                await asyncio.sleep(0.01)
+            await asyncio.sleep(0.1)
+            for i, q in enumerate(queues):
+                while not q.empty():
+                    sid, ev = q.get_nowait()
+                    if ev is not None:
+                        got[i].append(ev.id)
+            return accepted, got, connected, bool(Config.should_run_notifier), early_failed, raised
+        finally:
+            notifier.NotifyClient.__init__, notifier.NotifyServer.__init__, notifier.asyncio = saved
+            web.is_main_process.clear()
+            # the server's side of every connection is closed first: NotifyServer.run leaves `async with server`
+            # only when no connection is left open (Server.wait_closed, Python 3.12)
+            for srv in servers:
+                for wr in list(srv.connections.values()):
+                    wr.close()
+            await asyncio.sleep(0.05)
+            for w in workers:
+                try:
+                    if w.notifier is not None and w.notifier._task is not None:
+                        w.notifier._task.cancel()
+                except Exception:
+                    pass
+            await asyncio.sleep(0.05)
+            for srv in servers:
+                if srv._task is not None:
+                    srv._task.cancel()
+            await asyncio.sleep(0.05)
+            for w in workers:
+                await env.close(w)
+            sc.close()
+    for _ in range(2 if tier == "quick" else 12):
+        n = rng.choice([2, 2, 3])
+        script = [(rng.randrange(n), "w%d" % k) for k in range(rng.randint(4, 10))]
+        accepted, got, connected, should, early_failed, raised = env.run(one(n, script))
+        s.count("early_announcement_failed" if early_failed else "early_announcement_sent")
+        case = {"workers": n, "accepted_by": [w for w, _ in script]}
+        s.case(case, nontrivial=len({w for w, _ in script}) > 1)
+        s.count("workers_%d" % n)
+        if not should or not all(connected):
+            s.violate("workers-not-connected", case, "run_notifier is configured but Config.should_run_notifier is %r / notifier connections: %r" % (should, connected))
+            continue
+        if raised:
+            s.violate("worker-add-event-raised", case, "accepting an event raised on a worker whose earlier announcement had failed: " + raised[0], observed=raised[:3])
+        for i, g in enumerate(got):
+            if sorted(g) != sorted(accepted):
+                missing = [x[:8] for x in accepted if x not in g]
+                dup = sorted({x[:8] for x in g if g.count(x) > 1})
+                s.violate("worker-missed-or-repeated-event", dict(case, worker=i),
+                          "the subscriber of worker %d was pushed %d of %d accepted events (%d missing, %d repeated)" % (i, len(set(g) & set(accepted)), len(accepted), len(missing), len(dup)),
+                          expected=len(accepted), observed={"missing": missing[:4], "repeated": dup[:4]})
+                break
     return s
 
 
@@ -571,7 +1198,7 @@ def suite_second_instance_policies(tier, seed):
             mk = DBStorage
         else:
             from nostr_relay.storage import kv
-            kv.analyze = lambda *a, **k: None
+            env.stub_analyze(kv)
             Config.storage = {"class": "nostr_relay.storage.kv.LMDBStorage", "path": "second-%d" % id(sc)}
             mk = kv.LMDBStorage
         if with_key:
@@ -814,7 +1441,10 @@ def suite_stalled_reader(tier, seed):
                                                          remote_addr="10.1.1.%d" % i)) for i, (k, c) in enumerate(conns.items())}
         for k in "SH":
             conns[k].inbox.put_nowait(_json.dumps(["REQ", "all", {"kinds": [1]}]))
-        await asyncio.sleep(0.05)
+        for _ in range(2000):          # both stored answers (empty) must be complete before anything is published
+            await asyncio.sleep(0.005)
+            if all(any(x.startswith('["EOSE"') for x in conns[k].sent) for k in "SH"):
+                break
         evs = [env.mk_event(i % 3, 1, env.NOW - 5000 + i, [], "s%d" % i) for i in range(N)]
         wedged_at = None
         for i, e in enumerate(evs):
@@ -906,3 +1536,43 @@ def suite_live_then_stored(tier, seed):
             s.violate("live-and-stored-disagree", {"backend": backend, "first": bad[0]},
                       "an event was pushed live under a filter but is not returned by that filter afterwards (or the reverse)", observed=bad[:3])
     return s
+
+
+# ------------------------------------------------------------------------------------ replay of the oracles of this module
+def registry():
+    return {
+        "oracle:forged-replay-after-removal": suite_replay_after_removal,
+        "oracle:policy-reapplied-on-resubmission": suite_policy_reapplied,
+        "oracle:recipe-is_whitelisted_or_tagged": suite_recipe_validator,
+        "oracle:roles-readback-concurrent": suite_roles_concurrent,
+        "oracle:roles-readback-burst": suite_roles_burst,
+        "oracle:output-validator-own-context": suite_output_validator_context,
+        "oracle:gc-periodic-passes": suite_gc_lifecycle,
+        "oracle:kv-req-burst-every-req-answered": suite_kv_req_burst,
+        "oracle:failing-query-still-answered": suite_failing_query_answered,
+        "oracle:workers-share-accepted-events": suite_two_workers,
+        "oracle:limit-cap-plain-subscribe": suite_cap_plain_subscribe,
+        "oracle:announce-every-accepted-event": suite_announce_all_accepted,
+        "oracle:removed-unreachable-after-read": suite_removed_unreachable_after_read,
+        "fault:sqlite-process-kill": suite_sqlite_kill,
+        "oracle:policies-on-every-storage-instance": suite_second_instance_policies,
+        "oracle:served-event-is-the-signed-event": suite_served_is_signed,
+        "oracle:rate-limited-frames-wellformed": suite_limited_frames,
+        "oracle:first-d-tag-names-the-address": suite_multi_d_tags,
+        "oracle:stalled-reader-does-not-stall-others": suite_stalled_reader,
+        "oracle:pushed-live-implies-stored-answer": suite_live_then_stored,
+    }
+
+
+def replay(payload):
+    """./check Cxx --replay <file> for a violation found by one of the oracles above: the suites are deterministic in
+    (tier, seed), so the replay re-runs the suite that found it and looks for the same class on the same case"""
+    v = payload["violation"]
+    fn = registry()[v["suite"]]
+    s = fn(payload.get("tier", "quick"), payload.get("seed", 0))
+    same = [x for x in s.violations if x["cls"] == v["cls"]]
+    exact = [x for x in same if x["case"] == v["case"]]
+    for x in (exact or same)[:3]:
+        print("still failing:", x["cls"], x["what"], x.get("observed"))
+    print("replay:", "FAIL" if same else "pass")
+    return 1 if same else 0
